@@ -125,6 +125,10 @@ closed spec fn observes_finish() -> bool { true }
 closed spec fn replace_is_atomic() -> bool { false }
 open spec fn accepts_replace(&self) -> bool { true }
 #[verifier::prophetic] closed spec fn fobs(&self) -> Obs<Self::Error> { obs_now(mut_ref_future(self.d)) }
+/// configuration: everything but the cursors, the borrowed hook and the ghost histories
+closed spec fn config(&self) -> Self {
+    Patience { d: arbitrary(), old_current: 0, new_current: 0, hist: Ghost(Seq::empty()), s: Ghost(Seq::empty()), ..*self }
+}
 ''', '    ')
 o.save()
 
@@ -203,30 +207,13 @@ def contract(lv):
     requires diff_pre(*vstd::prelude::old(d), old, old_range, new, new_range, LVL),
     ensures
         err_post(*vstd::prelude::old(d), *final(d), res),
-        (*final(d)).fobs() == (*vstd::prelude::old(d)).fobs(),
         seg_post(*vstd::prelude::old(d), *final(d), old, old_range, new, new_range, LVL, false, fin::<D>(), res.is_ok()),
 '''.replace('LVL', lv)
-dd = o.find('pub fn diff_deadline<Old, New, D>(')
-o.lines[dd:dd] = ghost('''
-#[verifier::external_body]  // assumed contract. The body is verified as diff_deadline__shadow below up to the assertion that the user's
-// hook held by the Patience struct has received a complete valid script and its finish; that this hook state is `*final(d)`
-// (the &mut parameter is moved into the struct) is what Verus cannot resolve - see DESIGN.md section 5 C01.
-''')
 dd = o.find('pub fn diff_deadline<Old, New, D>(')
 o.before('{', contract('alg_lvl(deadline)'), start=dd)
 o.after('{', '''
 let ghost ud0 = *d;
-''', start=dd, stmt=False, ind='    ')
-i = o.find('deadline,', o.find('let mut d = Replace::new(Patience {', dd))
-o.lines[i+1:i+1] = ghost('''
-hist: Ghost(Seq::empty()), d0: Ghost(ud0), s: Ghost(Seq::empty()), o0: Ghost(old_range.start as int), n0: Ghost(new_range.start as int),
-''', '        ')
-dd = o.find('pub fn diff_deadline__shadow<Old, New, D>(')
-o.before('{', '''
-    requires diff_pre(*vstd::prelude::old(d), old, old_range, new, new_range, alg_lvl(deadline)),
-''', start=dd)
-o.after('{', '''
-let ghost ud0 = *d;
+let ghost dfv = mut_ref_future(d);
 ''', start=dd, stmt=False, ind='    ')
 i = o.find('deadline,', o.find('let mut d = Replace::new(Patience {', dd))
 o.lines[i+1:i+1] = ghost('''
@@ -269,6 +256,12 @@ proof {
     lemma_run_fin::<Patience<Old, New, D>>(rel_true(), pt.rst0(), sent::<Patience<Old, New, D>>(rp.em_()));
     assert(pt.rst().fin);
     assert(pt.done());
+    // the hook held by the Patience struct is the caller's hook: no call re-seated the borrow (fobs never changes) and
+    // the struct dies here, so what the caller will see is the hook's current state
+    assert(rp0.fobs() == obs_now(dfv));
+    assert(rp.fobs() == rp0.fobs());
+    assert(obs_now(*pt.d) == obs_now(dfv));
+    lemma_post_transfer(ud0, *pt.d, dfv, old, old_range, new, new_range, lvl, false, fin::<D>(), Ok::<(), D::Error>(()));
 }
 ''', '    ')
 df = o.find('pub fn diff<Old, New, D>(')
